@@ -78,7 +78,7 @@ def pytest_sessionfinish(session, exitstatus):
         black.format_str = boom
 '''
 
-KINDS = ["parse", "rename", "open", "write", "read", "black_raise", "fmt_exit", "fmt_garbage", "none"]
+KINDS = ["parse", "rename", "open", "write", "read", "black_raise", "fmt_exit", "fmt_empty", "fmt_garbage", "none"]
 
 
 def gen(rng, tier, shape=None):
@@ -109,6 +109,9 @@ def project(case):
 def pyproject(case):
     if case["kind"] == "fmt_exit":
         return "[tool.inline-snapshot]\nformat-command=\"python3 -c 'import sys; sys.exit(3)'\"\n"
+    if case["kind"] == "fmt_empty":
+        # exit status 0 but nothing on stdout (a command that formats the file in place, `true`, ...)
+        return "[tool.inline-snapshot]\nformat-command=\"python3 -c 'pass'\"\n"
     if case["kind"] == "fmt_garbage":
         return "[tool.inline-snapshot]\nformat-command=\"echo 'def broken(:'\"\n"
     return ""
@@ -137,7 +140,7 @@ def run_impl(case):
     base = dict(files)
     base["conftest.py"] = CONFTEST
     ref = impl_pytest.run_session(base, ["--inline-snapshot=create"], {}, pyproject=("" if case["kind"].startswith("fmt_") else py))
-    env = {} if case["kind"] in ("none", "fmt_exit", "fmt_garbage") else {"VT_FAULT": f"{case['kind']}:{case['n']}"}
+    env = {} if case["kind"] in ("none", "fmt_exit", "fmt_empty", "fmt_garbage") else {"VT_FAULT": f"{case['kind']}:{case['n']}"}
     r = impl_pytest.run_session(base, ["--inline-snapshot=create"], env, pyproject=py)
     obs = {"rc": r["rc"], "traceback": "Traceback" in r["stderr"] or "injected fault" in r["stderr"],
            "injected": "injected fault" in (r["stderr"] + r["stdout"]), "problems": "Problems" in r["stdout"],
@@ -199,7 +202,7 @@ def compare(case, obs, model_out):
     mfiles = {int(p[0]): p[1] for p in out[1][1:]}
     for i, name in enumerate(sorted(obs["files"])):
         fo = obs["files"][name]
-        if case["kind"] in ("black_raise", "fmt_exit"):
+        if case["kind"] in ("black_raise", "fmt_exit", "fmt_empty"):
             state = "old" if fo["now"] == fo["old"] else "new"      # degraded formatting: new content, other layout
         else:
             state = "old" if fo["now"] == fo["old"] else "new" if fo["now"] == fo["new"] else "empty" if fo["now"] == "" else "other"
@@ -214,7 +217,7 @@ def compare(case, obs, model_out):
 
 def oracle(case, obs):
     fails = []
-    degrade = case["kind"] in ("black_raise", "fmt_exit")
+    degrade = case["kind"] in ("black_raise", "fmt_exit", "fmt_empty")
     for name, fo in obs["files"].items():
         now = fo["now"]
         if now != fo["old"] and now != fo["new"]:
